@@ -363,6 +363,14 @@ fn run_history(case: &Val) -> Val {
 }
 
 fn run_process(case: &Val, policy: Option<&table::PolicyAssignment>) -> Val {
+    run_process_rtc(case, policy, None)
+}
+
+fn run_process_rtc(
+    case: &Val,
+    policy: Option<&table::PolicyAssignment>,
+    rtc: Option<&crate::rtc::RtcFilter>,
+) -> Val {
     let ctx = ctx_of(case.at(1));
     let emax = case.at(2).usize();
     let raddr = ip_of(case.at(3));
@@ -418,7 +426,7 @@ fn run_process(case: &Val, policy: Option<&table::PolicyAssignment>) -> Val {
     };
     let mut sink = RecSink { ops: Vec::new() };
     process_nlri_change(
-        &update, emax, raddr, &mut map, &mut sink, &ctx, policy, cid, None, None, None,
+        &update, emax, raddr, &mut map, &mut sink, &ctx, policy, cid, None, None, rtc,
     );
     let probe: Vec<Val> = case
         .at(7)
@@ -508,6 +516,34 @@ fn run_case(case: &Val) -> Val {
             run_process(case, Some(&pa))
         }
         13 => run_history(case),
+        // [14, ..as 9.., [accept_all, [rt8..]]]: with a real RtcFilter built by from_paths
+        14 => {
+            let r = case.at(8);
+            let src = Arc::new(table::Source::new(
+                "10.0.0.7".parse().unwrap(),
+                IpAddr::V4(Ipv4Addr::new(127, 0, 0, 1)),
+                65002,
+                65001,
+                Ipv4Addr::new(10, 0, 0, 7),
+                PeerRole::Ebgp,
+            ));
+            let mut paths: Vec<table::SoftResetPath> = Vec::new();
+            let mk = |n: packet::rtc::RtcNlri| -> table::SoftResetPath {
+                (Family::RTC, packet::Nlri::Rtc(n), 0, None, src.clone(), Arc::new(Vec::new()), 0)
+            };
+            if r.at(0).bool() {
+                paths.push(mk(packet::rtc::RtcNlri::wildcard()));
+            }
+            for rt in r.at(1).list() {
+                let mut b = [0u8; 8];
+                b.copy_from_slice(&rt.bytes());
+                paths.push(mk(packet::rtc::RtcNlri {
+                    match_type: packet::rtc::MatchType::ExactMatch { origin_as: 65002, route_target: b },
+                }));
+            }
+            let f = crate::rtc::RtcFilter::from_paths(&paths);
+            run_process_rtc(case, None, Some(&f))
+        }
         // [10, ctx, router_id, cid, attrs]: the receive path for one reach UPDATE.
         // run_select skips the message when is_as_loop (that `continue` is glue
         // replicated here); otherwise PeerSession::rx_update runs for real and the
